@@ -254,7 +254,7 @@ class Inliner:
         fn = fi.node
         used = {n.id for n in ast.walk(fn) if isinstance(n, ast.Name)} | {a.arg for a in ast.walk(fn) if isinstance(a, ast.arg)}
 
-        def helper_body(u, call: ast.Call, receiver):  # noqa: ANN001
+        def helper_body(u, call: ast.Call, receiver, same: set[str] = frozenset()):  # noqa: ANN001
             un = u.node
             if _is_generator(un) or (isinstance(un, ast.AsyncFunctionDef) and not isinstance(fn, ast.AsyncFunctionDef)):
                 return None
@@ -274,7 +274,7 @@ class Inliner:
             params = {p.arg for p in un.args.posonlyargs + un.args.args + un.args.kwonlyargs}
             # locals of the helper that collide with unrelated names of the caller get a suffix
             arg_names = {n.id for v in list(mapping.values()) + [p.value for p in pre] for n in ast.walk(v) if isinstance(n, ast.Name)}
-            rename = {s: s + '__' + un.name.strip('_') for s in stored - params if s in used and s not in arg_names}
+            rename = {s: s + '__' + un.name.strip('_') for s in stored - params if s in used and s not in arg_names and s not in same}
             body = [_Subst(mapping, rename).visit(copy.deepcopy(st)) for st in body]
             return body, pre
 
@@ -324,7 +324,9 @@ class Inliner:
                 if call is not None:
                     t = self._target(fi, call)
                     if t is not None:
-                        hb = helper_body(t[0], call, t[1])
+                        # a helper local with the very name the result is assigned to is that variable
+                        tg_names = {x.id for x in ast.walk(st) if isinstance(x, ast.Name) and isinstance(x.ctx, ast.Store)} if kind == 'assign' else set()
+                        hb = helper_body(t[0], call, t[1], tg_names)
                         if hb is not None:
                             body, pre = hb
                             if not _tail_returns_only(body):
